@@ -74,6 +74,13 @@ func collectEffects(c *Ctx, fn *ssa.Function) []geffect {
 				}
 				pr := x.Preds[0]
 				iff, ok := pr.Instrs[len(pr.Instrs)-1].(*ssa.If)
+				if ok && isRangeHeaderCond(iff) && pr.Succs[0] == x {
+					// inside a range loop: the collection ranged over is part of the step
+					if ln, isC := iff.Cond.(*ssa.BinOp).Y.(*ssa.Call); isC {
+						e.conds = append(e.conds, "i in "+w.term(ln.Call.Args[0]))
+					}
+					continue
+				}
 				if !ok || pr.Succs[0] == pr.Succs[1] || isRangeHeaderCond(iff) {
 					continue
 				}
@@ -187,17 +194,17 @@ func ruleGEffLegacy(c *Ctx) {
 	// the Satoshi algorithm, as effects on the working copy C (idx = p1, hash type = p2)
 	want := []string{
 		// 1. script code: the signed input carries the recorded previous script, all others are blanked
-		C + ".Inputs[i].PreviousTxScript := p0.Inputs[p1].PreviousTxScript  when (i == p1)",
-		C + ".Inputs[i].UnlockingScript := &empty(bscript.Script)  when !(i == p1)",
-		C + ".Inputs[i].PreviousTxScript := &empty(bscript.Script)  when !(i == p1)",
+		C + ".Inputs[i].PreviousTxScript := p0.Inputs[p1].PreviousTxScript  when (i == p1) && i in " + C + ".Inputs",
+		C + ".Inputs[i].UnlockingScript := &empty(bscript.Script)  when !(i == p1) && i in " + C + ".Inputs",
+		C + ".Inputs[i].PreviousTxScript := &empty(bscript.Script)  when !(i == p1) && i in " + C + ".Inputs",
 		// 2. NONE: no outputs, other inputs' sequences zeroed
 		C + ".Outputs := " + C + ".Outputs[0:0]  when " + N,
-		C + ".Inputs[i].SequenceNumber := 0  when (i != p1) && " + N,
+		C + ".Inputs[i].SequenceNumber := 0  when (i != p1) && i in " + C + ".Inputs && " + N,
 		// 3. SINGLE: outputs truncated to idx+1, earlier ones blanked to (-1, empty), other sequences zeroed
 		C + ".Outputs := " + C + ".Outputs[0:(p1 + 1)]  when !" + N + " && " + S,
 		C + ".Outputs[i].Satoshis := 18446744073709551615  when !" + N + " && (i < p1) && " + S,
 		C + ".Outputs[i].LockingScript := &empty(bscript.Script)  when !" + N + " && (i < p1) && " + S,
-		C + ".Inputs[i].SequenceNumber := 0  when !" + N + " && (i != p1) && " + S,
+		C + ".Inputs[i].SequenceNumber := 0  when !" + N + " && (i != p1) && i in " + C + ".Inputs && " + S,
 		// 4. ANYONECANPAY: only the signed input remains
 		C + ".Inputs := " + C + ".Inputs[p1:(p1 + 1)]  when ((p2 & 128) != 0)",
 	}
